@@ -44,4 +44,44 @@ CHECKS = {
         "assumptions": ["a stream's read() returns between 1 and the requested number of bytes until EOF, then 0 (std::io::Read contract)"],
         "trusted_base": ["model: coq/theories/Model/BlockEnc.v (read_block_stream as read_fill, read_block_buffer as blocks_buf)"],
     },
+    "C11": {
+        "extract": "C11", "driver": "c11",
+        "runs": [{"subcmd": "sender", "shards_quick": 4, "shards_thorough": 16, "driver_args": ["c11"]}],
+        "rule": 'S lines: one whole scenario per line - the real Sender (No-Code objects with per-object OTI, sizes 0..8 symbols, max_transfer_count 1..3, carousel none/delay/interval incl. 0, target acquisition none/fast/duration/time, allow-immediate-stop, start times; both FDT publish modes, 1-2 priority queues, multiplex_files 0..3, FDT start id incl. 2^20-1, FDT durations 2 s..1 h, multi-packet FDTs) driven by seeded random operation scripts (add/publish/remove/trigger/set_complete/read/read-until-nothing) under a virtual clock with fine and coarse steps; the model is stepped on the same script and compared op by op (result, FDT content view with transfer counters, observer events). Non-trivial = at least 3 packets emitted; distinct = distinct scenario lines. Predicate: P_C11 (trace only): every object packet is preceded by all packets of one FDT instance listing its TOI (listing taken from the reassembled FDT XML), no object packet inside an instance.',
+        "level_text": 'Proved for all states: a file session emits nothing while an FDT instance is queued; an unpublished object is never started in full-FDT mode; read serves the FDT session first. The history-level theorem C11_announce_before_send_full is stated and evaluated on every run, not yet proved (partial). Correspondence: the Gallina model of filedesc.rs/fdt.rs/sendersession.rs/sender.rs agrees with the implementation op by op on every generated scenario.',
+        "explanation": 'P_C11 (trace only): every object packet is preceded by all packets of one FDT instance listing its TOI (listing taken from the reassembled FDT XML), no object packet inside an instance.',
+        "assumptions": ["block encoder abstracted to a packet counter (its behaviour is C08's subject)", "Duration::div_f64 is an oracle (whole-nanosecond quotients in generated cases)",
+                        "FDT packet count per instance is an oracle read from the FTI of the FDT packets", "TOIs are unique among live objects (C15)"],
+        "trusted_base": ["model: coq/theories/Model/SenderCtl.v (filedesc.rs TransferInfo/FileDesc, fdt.rs, sendersession.rs, sender.rs read)"],
+    },
+    "C12": {
+        "extract": "C11", "driver": "c11",
+        "runs": [{"subcmd": "sender", "shards_quick": 4, "shards_thorough": 16, "driver_args": ["c12"]}],
+        "rule": 'S lines: one whole scenario per line - the real Sender (No-Code objects with per-object OTI, sizes 0..8 symbols, max_transfer_count 1..3, carousel none/delay/interval incl. 0, target acquisition none/fast/duration/time, allow-immediate-stop, start times; both FDT publish modes, 1-2 priority queues, multiplex_files 0..3, FDT start id incl. 2^20-1, FDT durations 2 s..1 h, multi-packet FDTs) driven by seeded random operation scripts (add/publish/remove/trigger/set_complete/read/read-until-nothing) under a virtual clock with fine and coarse steps; the model is stepped on the same script and compared op by op (result, FDT content view with transfer counters, observer events). Non-trivial = at least 3 packets emitted; distinct = distinct scenario lines. Predicate: P_C12_wire (trace only): never more than max_transfer_count transfers of a non-carousel object, after removal at most the rest of the current transfer or one flagged packet; P_C12_counter after every operation: reported transfer counter vs completed transfers on the wire.',
+        "level_text": 'Proved: a transfer is exactly its packets with the flag last iff last transfer; forced read once; counters; expiry decision. C12_lifecycle_full stated and evaluated, not yet proved (partial). Correspondence: the Gallina model of filedesc.rs/fdt.rs/sendersession.rs/sender.rs agrees with the implementation op by op on every generated scenario.',
+        "explanation": 'P_C12_wire (trace only): never more than max_transfer_count transfers of a non-carousel object, after removal at most the rest of the current transfer or one flagged packet; P_C12_counter after every operation: reported transfer counter vs completed transfers on the wire.',
+        "assumptions": ["block encoder abstracted to a packet counter (its behaviour is C08's subject)", "Duration::div_f64 is an oracle (whole-nanosecond quotients in generated cases)",
+                        "FDT packet count per instance is an oracle read from the FTI of the FDT packets", "TOIs are unique among live objects (C15)"],
+        "trusted_base": ["model: coq/theories/Model/SenderCtl.v (filedesc.rs TransferInfo/FileDesc, fdt.rs, sendersession.rs, sender.rs read)"],
+    },
+    "C13": {
+        "extract": "C11", "driver": "c11",
+        "runs": [{"subcmd": "sender", "shards_quick": 4, "shards_thorough": 16, "driver_args": ["c13"]}],
+        "rule": 'S lines: one whole scenario per line - the real Sender (No-Code objects with per-object OTI, sizes 0..8 symbols, max_transfer_count 1..3, carousel none/delay/interval incl. 0, target acquisition none/fast/duration/time, allow-immediate-stop, start times; both FDT publish modes, 1-2 priority queues, multiplex_files 0..3, FDT start id incl. 2^20-1, FDT durations 2 s..1 h, multi-packet FDTs) driven by seeded random operation scripts (add/publish/remove/trigger/set_complete/read/read-until-nothing) under a virtual clock with fine and coarse steps; the model is stepped on the same script and compared op by op (result, FDT content view with transfer counters, observer events). Non-trivial = at least 3 packets emitted; distinct = distinct scenario lines. Predicate: P_C13_priority: an object packet of priority p is emitted only if no queue of smaller key is ready (slot with due tick, or free slot and eligible waiting object) in the model state before the read.',
+        "level_text": 'Proved: queues served in key order, first queue with a packet wins; slots per queue constant (multiplex bound); window refill order (interleave). C13_strict_priority_full stated and evaluated, not yet proved (partial). Correspondence: the Gallina model of filedesc.rs/fdt.rs/sendersession.rs/sender.rs agrees with the implementation op by op on every generated scenario.',
+        "explanation": 'P_C13_priority: an object packet of priority p is emitted only if no queue of smaller key is ready (slot with due tick, or free slot and eligible waiting object) in the model state before the read.',
+        "assumptions": ["block encoder abstracted to a packet counter (its behaviour is C08's subject)", "Duration::div_f64 is an oracle (whole-nanosecond quotients in generated cases)",
+                        "FDT packet count per instance is an oracle read from the FTI of the FDT packets", "TOIs are unique among live objects (C15)"],
+        "trusted_base": ["model: coq/theories/Model/SenderCtl.v (filedesc.rs TransferInfo/FileDesc, fdt.rs, sendersession.rs, sender.rs read)"],
+    },
+    "C14": {
+        "extract": "C11", "driver": "c11",
+        "runs": [{"subcmd": "sender", "shards_quick": 4, "shards_thorough": 16, "driver_args": ["c14"]}],
+        "rule": 'S lines: one whole scenario per line - the real Sender (No-Code objects with per-object OTI, sizes 0..8 symbols, max_transfer_count 1..3, carousel none/delay/interval incl. 0, target acquisition none/fast/duration/time, allow-immediate-stop, start times; both FDT publish modes, 1-2 priority queues, multiplex_files 0..3, FDT start id incl. 2^20-1, FDT durations 2 s..1 h, multi-packet FDTs) driven by seeded random operation scripts (add/publish/remove/trigger/set_complete/read/read-until-nothing) under a virtual clock with fine and coarse steps; the model is stepped on the same script and compared op by op (result, FDT content view with transfer counters, observer events). Non-trivial = at least 3 packets emitted; distinct = distinct scenario lines. Predicate: P_C14_start_time, P_C14_pacing, P_C14_carousel_gap against the model state before each read; panics of the sender are failures (degenerate inputs).',
+        "level_text": 'Proved: eligibility implies start time reached and (budget used up) carousel gap elapsed; every emitted packet passed the pacing gate; starting a transfer is total. C14_timing_full stated and evaluated, not yet proved (partial). Known finding D23 (carousel with max_transfer_count >= 2). Correspondence: the Gallina model of filedesc.rs/fdt.rs/sendersession.rs/sender.rs agrees with the implementation op by op on every generated scenario.',
+        "explanation": 'P_C14_start_time, P_C14_pacing, P_C14_carousel_gap against the model state before each read; panics of the sender are failures (degenerate inputs).',
+        "assumptions": ["block encoder abstracted to a packet counter (its behaviour is C08's subject)", "Duration::div_f64 is an oracle (whole-nanosecond quotients in generated cases)",
+                        "FDT packet count per instance is an oracle read from the FTI of the FDT packets", "TOIs are unique among live objects (C15)"],
+        "trusted_base": ["model: coq/theories/Model/SenderCtl.v (filedesc.rs TransferInfo/FileDesc, fdt.rs, sendersession.rs, sender.rs read)"],
+    },
 }
